@@ -120,14 +120,42 @@ def mkreq(r, proto):
     return rt.mk_ietf(bytes(r.getrandbits(8) for _ in range(32)), 1024)
 
 
-def closed_loop(port, r_seed, nclients, rounds, stop_evt=None, per_timeout=4.0, barrier=False):
+def closed_loop(port, r_seed, nclients, rounds, stop_evt=None, per_timeout=4.0, barrier=False, freeze_pid=None):
     """nclients concurrent closed-loop reference clients; returns list of (proto, request, [replies]).
-    barrier=True: the clients of a round send at the same moment (a burst of nclients datagrams,
-    far more than batch_size when that is small), then all wait for their replies."""
+    barrier=True: the clients of a round send together (a burst of nclients datagrams, far more than
+    batch_size when that is small), then all wait for their replies. With freeze_pid the server
+    process is stopped (SIGSTOP) while the burst is sent and continued afterwards, so that the whole
+    burst is queued on the sockets before any worker runs: each worker sees ONE readiness event."""
     import random
     results = []
     lock = threading.Lock()
-    bar = threading.Barrier(nclients) if barrier else None
+    nparties = nclients + (1 if (barrier and freeze_pid) else 0)
+    bar = threading.Barrier(nparties) if barrier else None
+    bar2 = threading.Barrier(nparties) if (barrier and freeze_pid) else None
+    bar3 = threading.Barrier(nparties) if (barrier and freeze_pid) else None
+    coord = None
+    if barrier and freeze_pid:
+        def coordinator():
+            for _ in range(rounds):
+                try:
+                    os.kill(freeze_pid, signal.SIGSTOP)
+                except OSError:
+                    pass
+                try:
+                    bar.wait(timeout=15)        # clients start sending
+                    bar2.wait(timeout=15)       # every client has sent
+                except threading.BrokenBarrierError:
+                    pass
+                finally:
+                    try:
+                        os.kill(freeze_pid, signal.SIGCONT)
+                    except OSError:
+                        pass
+                try:
+                    bar3.wait(timeout=30)       # every client has its reply (or gave up): only then freeze again
+                except threading.BrokenBarrierError:
+                    pass
+        coord = threading.Thread(target=coordinator)
 
     def one(ci):
         r = random.Random(r_seed * 1000 + ci)
@@ -147,9 +175,19 @@ def closed_loop(port, r_seed, nclients, rounds, stop_evt=None, per_timeout=4.0, 
                     pass
             try:
                 s.send(req)
+                if bar2 is not None:
+                    try:
+                        bar2.wait(timeout=15)
+                    except threading.BrokenBarrierError:
+                        pass
                 reps.append(s.recv(4096))
             except (socket.timeout, OSError):
                 pass
+            if bar3 is not None:
+                try:
+                    bar3.wait(timeout=30)
+                except threading.BrokenBarrierError:
+                    pass
             mine.append((proto, req, reps, time.time()))
         # anything extra still in flight?
         s.settimeout(0.15)
@@ -164,10 +202,18 @@ def closed_loop(port, r_seed, nclients, rounds, stop_evt=None, per_timeout=4.0, 
             results.extend(mine)
 
     ths = [threading.Thread(target=one, args=(i,)) for i in range(nclients)]
+    if coord:
+        coord.start()
     for t in ths:
         t.start()
     for t in ths:
         t.join()
+    if coord:
+        coord.join()
+        try:
+            os.kill(freeze_pid, signal.SIGCONT)
+        except OSError:
+            pass
     return results
 
 
@@ -224,7 +270,7 @@ def run_c18(ctx):
         try:
             if not srv.wait_ready():
                 ctx.violation("property", "server with %d workers did not start serving" % nw, dict(rep, log=srv.log()[-1500:])); continue
-            res = closed_loop(srv.port, ctx.seed * 100 + nw, nc, rounds, barrier=burst)
+            res = closed_loop(srv.port, ctx.seed * 100 + nw, nc, rounds, barrier=burst, freeze_pid=srv.p.pid if burst else None)
             rep["burst"] = burst
             th = srv.threads()
             workers = sorted({t for t in th if t.startswith("worker-")})   # the timer thread of each worker shares its name
